@@ -158,6 +158,37 @@ func (w *world) acts(univIdx int) bool {
 	return ((typ-pair*3-w.spec.ID)%nt+nt)%nt < w.spec.Act
 }
 
+// multiTableKeys: a, its same-table partner, then one key of each of up to
+// two OTHER tables of the world (same type), deterministic in a.
+func (w *world) multiTableKeys(a, partner tkey) []tkey {
+	ks := []tkey{a}
+	if partner != a && partner.Table == a.Table {
+		ks = append(ks, partner)
+	}
+	if w.univ == nil {
+		w.univ = w.universe()
+	}
+	start := 0
+	for i, k := range w.univ {
+		if k == a {
+			start = i
+			break
+		}
+	}
+	seen := map[string]bool{a.Table: true}
+	for d := 1; d < len(w.univ) && len(seen) < 3; d++ {
+		b := w.univ[(start+d)%len(w.univ)]
+		if b.Type == a.Type && !seen[b.Table] {
+			seen[b.Table] = true
+			ks = append(ks, b)
+		}
+	}
+	if len(seen) > 1 {
+		w.count("multi_table_batches", 1)
+	}
+	return ks
+}
+
 func partnerOf(univ []tkey, i int) tkey {
 	a := univ[i]
 	for d := 1; d < len(univ); d++ {
